@@ -272,10 +272,19 @@ def _env_private_first():
     return _E
 
 
-def task_tables(ctx, which, order="public-first"):
+def task_tables(ctx, which, order="public-first", reinit=0):
     _ORDER[0] = order
     E = env()
     T = E["tables"][which]
+    if reinit:
+        # the same table initialised again and again with the documented reload=True (a long-running service that
+        # refreshes its private table): the 150th initialisation serves what the first one served
+        from periodictable import covalent_radius, crystal_structure, xsf, magnetic_ff
+        for _ in range(reinit):
+            covalent_radius.init(T, reload=True)
+            crystal_structure.init(T, reload=True)
+            magnetic_ff.init(T, reload=True)
+        ctx.count("reinitialised-%d-times" % reinit)
     ctx.extra["entries"] = dict((k, len(v)) for k, v in E["oracle"].items())
     ctx.extra["magnetic-charge-states"] = sum(len(v) for v in E["oracle"]["magnetic"].values())
     for Z in range(0, 119):
@@ -796,6 +805,7 @@ def tasks(tier):
     out = [("tables-public", task_tables, dict(which="public")),
            ("tables-private", task_tables, dict(which="private")),
            ("tables-subclass", task_tables, dict(which="subclass")),
+           ("tables-private-after-150-reloads", task_tables, dict(which="private", reinit=150)),
            ("tables-public-after-private-init", task_tables, dict(which="public", order="private-first")),
            ("tables-private-initialised-first", task_tables, dict(which="private", order="private-first")),
            ("cromer-mann", task_cm, {})]
